@@ -40,7 +40,48 @@ let show_getop = function GOk (o, l) -> "(ok " ^ show_n o ^ " " ^ show_nat l ^ "
 let over_hts (tok : string) (f : n -> string) : string =
   if String.length tok > 0 && tok.[0] = '[' then show_list f (arg_list arg_n tok) else f (arg_n tok)
 
+(* ---- histories (Model/SighashHistory.v): ops = "op;op;...", fields separated by ':' (hex without prefix) ---- *)
+let hnat s = if s = "" then O else nat_of_int (int_of_string ("0x" ^ s))
+let parse_vs (t : string) : txout =          (* value-script *)
+  match String.split_on_char '-' t with
+  | [v; s] -> { to_value = hex_n v; to_script = bytes_of_hex s }
+  | _ -> failwith ("parse_vs " ^ t)
+let parse_slash f (t : string) = if t = "" then [] else List.map f (String.split_on_char '/' t)
+let parse_uns t = if t = "N" then None else Some (parse_vs t)
+let parse_op (t : string) : op =
+  match String.split_on_char ':' t with
+  | ["L"; s; i; h] -> Observe (ObsLegacy (bytes_of_hex s, hnat i, hex_n h))
+  | ["S"; s; i; h] -> Observe (ObsSegwit (bytes_of_hex s, hnat i, hex_n h))
+  | ["P"; s; i; h] -> Observe (ObsPreimage (bytes_of_hex s, hnat i, hex_n h))
+  | ["HP"; h] -> Observe (ObsHashPrevouts (hex_n h))
+  | ["HS"; h] -> Observe (ObsHashSequence (hex_n h))
+  | ["HO"; h; i] -> Observe (ObsHashOutputs (hex_n h, hnat i))
+  | ["TH"; h] -> Observe (ObsTxHash (if h = "" then None else Some (hex_n h)))
+  | ["BH"] -> Observe ObsBlankedHash
+  | ["mv"; v] -> Mutate (SetVersion (hex_n v))
+  | ["ml"; v] -> Mutate (SetLockTime (hex_n v))
+  | ["mh"; k; h] -> Mutate (SetInHash (hnat k, bytes_of_hex h))
+  | ["mi"; k; v] -> Mutate (SetInIndex (hnat k, hex_n v))
+  | ["ms"; k; s] -> Mutate (SetInScript (hnat k, bytes_of_hex s))
+  | ["mq"; k; v] -> Mutate (SetInSeq (hnat k, hex_n v))
+  | ["ia"; h; i; s; q] -> Mutate (AppendIn { ti_hash = bytes_of_hex h; ti_index = hex_n i; ti_script = bytes_of_hex s; ti_seq = hex_n q })
+  | ["id"; k] -> Mutate (DelIn (hnat k))
+  | ["ov"; k; v] -> Mutate (SetOutValue (hnat k, hex_n v))
+  | ["os"; k; s] -> Mutate (SetOutScript (hnat k, bytes_of_hex s))
+  | ["oa"; v; s] -> Mutate (AppendOut { to_value = hex_n v; to_script = bytes_of_hex s })
+  | ["op"] -> Mutate PopOut
+  | ["oc"] -> Mutate ClearOuts
+  | ["or"; l] -> Mutate (ReplaceOuts (parse_slash parse_vs l))
+  | ["us"; l] -> Mutate (SetUnspents (parse_slash parse_uns l))
+  | ["u1"; k; u] -> Mutate (SetUnspent (hnat k, parse_uns u))
+  | _ -> failwith ("parse_op " ^ t)
+let show_hres = function HInt v -> show_n v | HBytes b -> show_bytes b | HDone -> "D"
+
 let dispatch f args = match f, args with
+  | "history", [c; v; ins; outs; lock; uns; ops] ->
+    let t = parse_tx v ins outs lock uns in
+    let ops = List.map parse_op (String.split_on_char ';' ops) in
+    show_list (show_outcome show_hres) (run sha dsha (parse_coin c) t ops)
   | "delete_subscript", [s; sub] -> show_outcome show_bytes (delete_subscript (arg_bytes s) (arg_bytes sub))
   | "delete_signature", [s; sg] -> show_outcome show_bytes (delete_signature (arg_bytes s) (arg_bytes sg))
   | "sighash_f_script", [s; b; sigs] ->
